@@ -55,6 +55,9 @@ def main(argv):
         print("tier must be quick or thorough")
         return 2
     os.environ.setdefault("PYTHONHASHSEED", "0")
+    import logging
+
+    logging.disable(logging.CRITICAL)  # the reader logs rejected frames when no handler is given; not an observable here
     try:
         common.setup_repo_path()
         mod = importlib.import_module("harness.props." + prop.lower())
